@@ -692,6 +692,8 @@ def run(ctx):
                 return ('duplicate', cp[2].id)
             if cp and cp[1] is ast.Gt and norm(cp[0]).startswith('len(') and isinstance(U.literal(cp[2]), int):
                 return ('count', U.literal(cp[2]))
+            if cp and cp[1] is ast.Lt and norm(cp[2]).startswith('len(') and isinstance(U.literal(cp[0]), int):     # canonical spelling
+                return ('count', U.literal(cp[0]))
         return None
     wk = [kind(t) for t in wt]
     for t in rt:
